@@ -275,7 +275,21 @@ func genHistory(t *kit.Tape, o genOpts) *history {
 		}
 	}
 	nextVersion := func(cur int) int {
-		if cur > 0 && t.Chance(1, 8) {
+		if cur == 0 {
+			// the first version in this history: usually 1, sometimes the element is old already, with a
+			// version number just below a power-of-two boundary or simply large (the model goes by log
+			// order, nothing depends on the absolute numbers)
+			switch t.Draw(8) {
+			case 5:
+				return 250 + t.Draw(7)
+			case 6:
+				return 65530 + t.Draw(7)
+			case 7:
+				return 1000 + t.Draw(4001)
+			}
+			return 1
+		}
+		if t.Chance(1, 8) {
 			return cur + 2 + t.Draw(2)
 		}
 		return cur + 1
